@@ -559,8 +559,55 @@ def check_narrow_dims(i, acc):
         acc.case(("narrow", i, datas), nontrivial=len(cells) > 1, outcome=("narrow", i), sample=lambda: base)
 
 
+# ONE dimension with many categories (the cube's coordinates are then held in the narrowest unsigned dtype) under a fact with several columns:
+# anything that folds the column number into the cell number must not do so in the narrow dtype
+WIDE1 = [100, 129, 200, 255, 256, 300]
+
+
+def check_wide1(E, acc):
+    from catii.xcubes import xcube
+
+    N, K = 4, 3
+    f3, x3, v3 = fact_arg(N, [0, 1, 2], (False,) * (N * K), "nan")
+    w = [0.5, 1.0, 2.0, 4.0]
+    for data in itertools.product((0, E // 2, E - 1), repeat=N):
+        base = {"wide1": E, "data": list(data)}
+        cells = M.cell_rows([numpy.array(data, dtype=numpy.int64)], (E,), N)
+        for dt in (numpy.int64, numpy.uint16 if E > 256 else numpy.uint8):
+            dense = numpy.array(data, dtype=dt)
+
+            def cube():
+                return xcube([dense], interacting_shape=(E,))
+
+            calls = [
+                ("stddev", lambda: cube().stddev(fact_arg(N, [0, 1, 2], (False,) * (N * K), "nan")[0], None, True, (0, False)), lambda rows, k: o_stddev(rows, x3, v3, k, None, None, True)),
+                ("stddev-w", lambda: cube().stddev(fact_arg(N, [0, 1, 2], (False,) * (N * K), "nan")[0], numpy.array(w), True, (0, False)), lambda rows, k: o_stddev(rows, x3, v3, k, w, None, True)),
+                ("quantile", lambda: cube().quantile(fact_arg(N, [0, 1, 2], (False,) * (N * K), "nan")[0], 0.5, None, True, (0, False)), lambda rows, k: o_quantile(rows, x3, v3, k, True, 0.5)),
+                ("mean", lambda: cube().mean(fact_arg(N, [0, 1, 2], (False,) * (N * K), "nan")[0], None, True, (0, False)), lambda rows, k: sum(x3[r][k] for r in rows) / len(rows)),
+                ("sum", lambda: cube().sum(fact_arg(N, [0, 1, 2], (False,) * (N * K), "nan")[0], numpy.array(w), True, (0, False)), lambda rows, k: sum(w[r] * x3[r][k] for r in rows)),
+            ]
+            for stat, thunk, exp_of in calls:
+                try:
+                    v, ok = thunk()
+                except Exception as e:  # noqa
+                    acc.violation("xcube:%s" % stat, dict(base, stat=stat, dtype=numpy.dtype(dt).name), "raised %r" % (e,))
+                    continue
+                acc.count("evals", 1)
+                v, miss = numpy.asarray(v), ~numpy.asarray(ok).astype(bool)
+                want = {(c[0], k): exp_of(rows, k) for c, rows in cells.items() for k in range(K)}
+                want = {c: e for c, e in want.items() if e is not None}
+                if tuple(v.shape) != (E, K) or int((~miss).sum()) != len(want):
+                    acc.violation("xcube:%s" % stat, dict(base, stat=stat, dtype=numpy.dtype(dt).name), "%d non-missing entries (shape %r), expected %d at %r" % (int((~miss).sum()), v.shape, len(want), sorted(want)))
+                    continue
+                for c, e in want.items():
+                    if bool(miss[c]) or not close(float(v[c]), e):
+                        acc.violation("xcube:%s" % stat, dict(base, stat=stat, dtype=numpy.dtype(dt).name), "cell %r column %d = %r (missing %r), expected %r" % (c[0], c[1], float(v[c]), bool(miss[c]), e))
+                        break
+        acc.case(("wide1", E, data), nontrivial=len(cells) > 1, outcome=("wide1", E, len(cells)), sample=lambda: base)
+
+
 def blocks(tier):
-    out = [("narrow-dims", {"i": i}) for i in range(len(NARROW_DIMS))]
+    out = [("narrow-dims", {"i": i}) for i in range(len(NARROW_DIMS))] + [("wide1", {"E": E}) for E in WIDE1]
     for si, cfg in enumerate(SETS[tier]):
         for N in cfg["Ns"]:
             D = cfg["D"]
@@ -572,6 +619,9 @@ def blocks(tier):
 
 
 def run_block(family, p, acc):
+    if family == "wide1":
+        check_wide1(p["E"], acc)
+        return
     if family == "narrow-dims":
         check_narrow_dims(p["i"], acc)
         return
@@ -611,7 +661,9 @@ def replay(case, site=None):
     from ..core import Acc
 
     acc = Acc(ID, [], stop_at_first=False)
-    if "narrow_dims" in case:
+    if "wide1" in case:
+        check_wide1(case["wide1"], acc)
+    elif "narrow_dims" in case:
         check_narrow_dims(case["narrow_dims"], acc)
         for v in acc.violations[:5]:
             print("  %s :: %s" % (v["site"], v["detail"][:400]))
